@@ -22,29 +22,28 @@ GeometricMTF.mtf / .freq / .diff_limited_mtf) is compared with vkit/oracles/dft.
   curve when `scale` is requested; an unbinned variant is checked within the rigorous binning
   bound pi nu dx.
 
-Known defect mechanisms are modelled ("as-built": the oracle re-run with the mechanism switched
+Open defect mechanisms are modelled ("as-built": the oracle re-run with the mechanism switched
 on); a violation is keyed `clause:mechanism(+mechanism)` only when the library's output equals
 the as-built prediction at 1e-9, otherwise `clause:unexplained` (or the bare clause when no
 mechanism applies to the case).  Mechanisms and their predicates (class flags of the case only):
 
-  psf-mask-sqrt-mismatch        FFTPSF._generate_pupils masks with sqrt(x^2+y^2) <= 1, the pupil
-                                distribution with x^2+y^2 <= 1; predicate: the two masks of the N-grid
-                                differ (29 odd N in 16..256: 21, 31, 41, ... ) -> ValueError
-  psf-odd-padding               _pad_pupils pads floor((grid-N)/2) on both sides; predicate (grid-N) odd:
-                                psf is (grid-1)^2; with grid even the zero-frequency pixel is at
-                                grid/2-1 while strehl_ratio()/FFTMTF read index grid/2
-  mtf-frequency-axis-grid       FFTMTF.view: freq = arange(grid//2) * (grid/N)/(lambda_um F#) cycles/mm,
-                                i.e. the true axis times grid/1000; predicate grid != 1000
-  mtf-view-length-mismatch      FFTMTF.view: arange(grid//2) against curves of len(psf) - grid//2 points;
-                                predicate: the two lengths differ (every odd N) -> ValueError
-  mtf-circular-aliasing         FFT of a PSF sampled below Nyquist: predicate grid < 2N-1
+  mtf-circular-aliasing         FFTMTF is the FFT of a grid x grid PSF, i.e. the *circular* autocorrelation
+                                of the zero-extended pupil: lag k also collects lag grid-k.  Predicate
+                                grid <= 2N-3 (some reported lag k <= ceil(grid/2)-1 has grid-k <= N-1, the
+                                largest lag at which an N-sample pupil overlaps itself); as-built model:
+                                the column/row DFT of the oracle's grid x grid PSF
   working-fno-abs-magnification FFTMTF._get_fno: F#(1 + |m|/p) instead of F#|1 - m/p|; predicate:
-                                finite object and (erect image m > 0, or m/p > 1)
+                                finite object and (erect image m > 0, or m/p > 1); as-built model: that
+                                formula with the ABCD m, p and |f2|/EPD; the plotted axis inherits it
+                                (step 1/((N-1) lambda F#_lib))
   geometric-mtf-infinite-fno    GeometricMTF: cut-off from paraxial.FNO() (infinite-conjugate F#);
                                 predicate: finite object
+
+Repaired in /repo and therefore *not* modelled any more (a regression is a plain violation or a library
+exception): psf-mask-sqrt-mismatch (0a6371c), psf-odd-padding (20bd2b8), mtf-frequency-axis-grid (6883805),
+mtf-view-length-mismatch (7be2850).
 """
 import math
-import traceback
 
 import numpy as np
 
@@ -114,8 +113,6 @@ ANCHORS = [('optiland.psf', 'FFTPSF._generate_pupils'), ('optiland.psf', 'FFTPSF
            ('optiland.mtf', 'GeometricMTF._generate_mtf_data'), ('optiland.mtf', 'GeometricMTF._compute_field_data'),
            ('optiland.wavefront', 'Wavefront._generate_field_data')]
 
-M_MASK, M_PAD, M_AXIS, M_VIEW = ('psf-mask-sqrt-mismatch', 'psf-odd-padding', 'mtf-frequency-axis-grid',
-                                 'mtf-view-length-mismatch')
 M_ALIAS, M_FNO, M_GEOFNO = 'mtf-circular-aliasing', 'working-fno-abs-magnification', 'geometric-mtf-infinite-fno'
 
 GRIDS = [64, 65, 100, 127, 128, 129, 200, 255, 256, 257, 400, 500, 511, 512, 513, 1000, 1024, 1025, 2048]
@@ -358,11 +355,6 @@ def same(a, b, tol, scale=1.0):
     return r <= tol, r
 
 
-def raised_in(e, funcname):
-    fr = traceback.extract_tb(e.__traceback__)
-    return any(f.name == funcname and '/optiland/' in f.filename for f in fr)
-
-
 # ---------------------------------------------------------------------------
 # per-case context: oracle F-numbers and mechanism predicates
 
@@ -394,13 +386,8 @@ class Ctx:
             self.fno_lib = fno_inf * (1.0 + abs(m) / p)
         self.powered = int(np.sum(np.abs(P.c[:-1] * (P.n[1:-1] - P.n[:-2])) > 0)) if P.K > 1 else 0
         N, g = self.N, self.grid
-        self.mask_mismatch = bool(np.any(D.disk_mask(N) != D.disk_mask_sqrt(N)))
-        self.Mlib = D.padded_size_symmetric_floor(N, g) if g >= N else g     # as-built array side
-        self.odd_pad = self.Mlib != g
-        self.dc_shift = self.odd_pad and (self.Mlib // 2 != g // 2)          # zero frequency not at grid//2
-        self.alias = g < 2 * N - 1
-        self.axis_grid = g != 1000
-        self.view_len = (self.Mlib - g // 2) != (g // 2)
+        # circular autocorrelation of period g: reported lags k <= ceil(g/2)-1 collect lag g-k, non-zero iff g-k <= N-1
+        self.alias = g <= 2 * N - 3
         # F#(1 + |m|/p) equals F#|1 - m/p| exactly when m < 0 and 1 - m/p > 0
         self.fno_abs = self.finite and (self.mag > 0 or self.m_over_p > 1)
 
@@ -446,13 +433,13 @@ def sample_pupil(lens, hy, wl, N, rec):
 
 
 def choose_law(ctx, rec, pup, lib_psf):
-    """The candidate pupil whose as-built PSF reproduces the library's; the documented one when none does."""
+    """The candidate pupil whose oracle PSF reproduces the library's; the documented one when none does."""
     if len(pup['laws']) == 1:
         return pup
     lib_psf = np.asarray(lib_psf)
     for cand in reversed(pup['laws']):                     # the library's documented law first
-        oa = D.psf_oracle(cand['P'], cand['A'], ctx.Mlib)
-        if same(lib_psf, oa['psf'], 1e-9, scale=max(float(oa['psf'].max()), 1e-300))[0]:
+        oc = D.psf_oracle(cand['P'], cand['A'], ctx.grid)
+        if same(lib_psf, oc['psf'], 1e-9, scale=max(float(oc['psf'].max()), 1e-300))[0]:
             rec.cls('amplitude-law-' + cand['law'])
             return cand
     rec.cls('amplitude-law-undetermined')
@@ -465,10 +452,8 @@ def class_flags(rec, ctx, fam):
             'sampling-odd' if N % 2 else 'sampling-even')
     if fam != 'geo':
         rec.cls('grid-odd' if g % 2 else 'grid-even', 'grid-minus-sampling-odd' if (g - N) % 2 else 'grid-minus-sampling-even',
-                'Q<2' if ctx.alias else 'Q>=2', 'grid-1000' if g == 1000 else 'grid-not-1000',
+                'grid<=2N-3' if ctx.alias else 'grid>=2N-2', 'grid-1000' if g == 1000 else 'grid-not-1000',
                 f'grid<={64 if g <= 64 else 128 if g <= 128 else 256 if g <= 256 else 512 if g <= 512 else 1025 if g <= 1025 else 2048}')
-        if ctx.mask_mismatch:
-            rec.cls('mech-' + M_MASK)
     if ctx.fno_abs:
         rec.cls('mech-' + M_FNO)
 
@@ -476,11 +461,8 @@ def class_flags(rec, ctx, fam):
 # ---------------------------------------------------------------------------
 # PSF family
 
-def oracle_psfs(ctx, pup):
-    """want (grid side) and as-built (library side) oracle PSFs; the second only when it differs."""
-    o = D.psf_oracle(pup['P'], pup['A'], ctx.grid)
-    oa = D.psf_oracle(pup['P'], pup['A'], ctx.Mlib) if ctx.odd_pad else o
-    return o, oa
+def oracle_psf(ctx, pup):
+    return D.psf_oracle(pup['P'], pup['A'], ctx.grid)
 
 
 def check_psf(ctx, rec, hy, wl):
@@ -489,42 +471,28 @@ def check_psf(ctx, rec, hy, wl):
     pup = sample_pupil(ctx.lens, hy, wl, N, rec)
     if pup is None:
         return
-    try:
-        lib = FFTPSF(ctx.lens, (0.0, hy), wl, num_rays=N, grid_size=g)
-    except ValueError as e:
-        if ctx.mask_mismatch and raised_in(e, '_generate_pupils'):
-            rec.check('psf-equals-dft', False, key=f'psf-equals-dft:{M_MASK}',
-                      msg=f'FFTPSF(num_rays={N}) raises {type(e).__name__}: {e} [the pupil is masked with sqrt(x^2+y^2)<=1 '
-                          f'but the wavefront samples with x^2+y^2<=1; the two disks differ on this grid]')
-            return
-        raise
+    lib = FFTPSF(ctx.lens, (0.0, hy), wl, num_rays=N, grid_size=g)     # an exception here is a library violation
     psf = np.asarray(lib.psf)
     pup = choose_law(ctx, rec, pup, psf)
-    o, oa = oracle_psfs(ctx, pup)
-    fl_pad = (M_PAD,) if ctx.odd_pad else ()
-    fl_dc = (M_PAD,) if ctx.dc_shift else ()
-    shape_asbuilt = psf.shape == (ctx.Mlib, ctx.Mlib)
+    o = oracle_psf(ctx, pup)
     peak = max(float(o['psf'].max()), 1e-300)
-    model_ok, model_r = same(psf, oa['psf'], 1e-9, scale=max(float(oa['psf'].max()), 1e-300)) if shape_asbuilt \
-        else (False, float('inf'))
 
-    judge(rec, 'psf-shape', psf.shape == (g, g), fl_pad, shape_asbuilt,
-          msg=f'psf.shape {psf.shape} for grid_size={g}, num_rays={N}')
+    judge(rec, 'psf-shape', psf.shape == (g, g), msg=f'psf.shape {psf.shape} for grid_size={g}, num_rays={N}')
     finite = bool(np.all(np.isfinite(psf)))
     mn = float(psf.min()) if finite else float('nan')
     judge(rec, 'psf-nonnegative', finite and mn >= 0.0, msg=f'min(psf) = {mn!r}', resid=max(0.0, -mn) if finite else None,
           tol=1e-300)
     ok, r = same(psf, o['psf'], 1e-9, scale=peak)
-    judge(rec, 'psf-equals-dft', ok, fl_pad, model_ok, resid=r, tol=1e-9,
+    judge(rec, 'psf-equals-dft', ok, resid=r, tol=1e-9,
           msg=f'psf differs from 100|DFT(pupil)|^2/peak0 by {r:.3e} of the peak (N={N}, grid={g}, oracle {o["how"]})',
-          detail=dict(shape=list(psf.shape), asbuilt_residual=model_r, hy=hy, wl=wl))
+          detail=dict(shape=list(psf.shape), hy=hy, wl=wl))
     rec.event('psf_pixels_compared', psf.size)
     rec.event('psf_oracle_explicit_dft' if o['how'] == 'explicit' else 'psf_oracle_fft_only')
 
     # Parseval: same total as the unaberrated pupil (array of the library's actual side)
     side = psf.shape[0]
     if psf.ndim == 2 and psf.shape[0] == psf.shape[1] and side >= N:
-        tot0 = float((o if side == g else oa if side == ctx.Mlib else D.psf_oracle(pup['P'], pup['A'], side))['psf0'].sum())
+        tot0 = float((o if side == g else D.psf_oracle(pup['P'], pup['A'], side))['psf0'].sum())
         closed = D.parseval_total(pup['A'], side)
         if abs(tot0 - closed) > 1e-10 * closed:
             raise D.OracleSelfCheck(f'oracle unaberrated total {tot0!r} vs Parseval closed form {closed!r}')
@@ -536,18 +504,15 @@ def check_psf(ctx, rec, hy, wl):
     s = float(np.ravel(lib.strehl_ratio())[0])
     judge(rec, 'strehl-le-1', s <= 1.0 + 1e-12, resid=max(0.0, s - 1.0), tol=1e-12, msg=f'strehl_ratio() = {s!r}')
     want = float(o['psf'][g // 2, g // 2]) / 100.0
-    pred = float(oa['psf'][g // 2, g // 2]) / 100.0 if g // 2 < ctx.Mlib else float('nan')
     r = abs(s - want)
-    judge(rec, 'strehl-equals-centre/100', r <= 1e-9, fl_dc, abs(s - pred) <= 1e-9, resid=r, tol=1e-9,
-          msg=f'strehl_ratio() = {s!r}, central (zero-frequency) value of the PSF / 100 = {want!r}',
-          detail=dict(asbuilt_prediction=pred, N=N, grid=g))
+    judge(rec, 'strehl-equals-centre/100', r <= 1e-9, resid=r, tol=1e-9,
+          msg=f'strehl_ratio() = {s!r}, central (zero-frequency) value of the PSF / 100 = {want!r} (N={N}, grid={g})')
     if ctx.perfect:
         pk = float(psf.max())
         judge(rec, 'psf-unaberrated-peak-100', abs(pk - 100.0) <= 1e-4, resid=abs(pk - 100.0) / 100, tol=1e-6,
               msg=f'peak of the PSF of a perfect system = {pk!r}')
-        judge(rec, 'psf-unaberrated-peak-100', abs(s - 1.0) <= 1e-6, fl_dc, abs(s - pred) <= 1e-9, resid=abs(s - 1.0),
-              tol=1e-6, msg=f'Strehl ratio of a perfect system ({ctx.case.get("which")}, N={N}, grid={g}) = {s!r}',
-              detail=dict(asbuilt_prediction=pred))
+        judge(rec, 'psf-unaberrated-peak-100', abs(s - 1.0) <= 1e-6, resid=abs(s - 1.0),
+              tol=1e-6, msg=f'Strehl ratio of a perfect system ({ctx.case.get("which")}, N={N}, grid={g}) = {s!r}')
     if ctx.case.get('view_psf') and finite:
         import matplotlib.pyplot as plt
         try:                                   # reach only (_get_psf_units): view() is not an observable of C11
@@ -607,14 +572,7 @@ def check_mtf(ctx, rec, wl, hys):
         if p is None:
             return
         pups.append(p)
-    try:
-        lib = FFTMTF(ctx.lens, fields=[(0.0, hy) for hy in hys], wavelength=wl, num_rays=N, grid_size=g)
-    except ValueError as e:
-        if ctx.mask_mismatch and raised_in(e, '_generate_pupils'):
-            rec.check('psf-equals-dft', False, key=f'psf-equals-dft:{M_MASK}',
-                      msg=f'FFTMTF(num_rays={N}) raises {type(e).__name__} in FFTPSF._generate_pupils: {e}')
-            return
-        raise
+    lib = FFTMTF(ctx.lens, fields=[(0.0, hy) for hy in hys], wavelength=wl, num_rays=N, grid_size=g)
     nu_c, nu_lib = ctx.nu_c(wl), ctx.nu_c_lib(wl)
     # cut-off
     mf = float(np.ravel(lib.max_freq)[0])
@@ -623,26 +581,18 @@ def check_mtf(ctx, rec, wl, hys):
           msg=f'FFTMTF.max_freq = {mf!r} cycles/mm, 1/(lambda F#w) = {nu_c!r} (F#w = {ctx.fno!r} from the ABCD marginal ray, '
               f'm/p = {ctx.m_over_p:.4g})', detail=dict(asbuilt_prediction=nu_lib))
     # frequency axis handed to matplotlib
-    lines, axis_ok_model = None, False
-    try:
-        lines = capture_view(lib)
-    except ValueError as e:
-        if ctx.view_len and raised_in(e, 'view'):
-            rec.check('mtf-frequency-axis', False, key=f'mtf-frequency-axis:{M_VIEW}',
-                      msg=f'FFTMTF.view() raises {type(e).__name__}: {e} (num_rays={N}, grid_size={g}: '
-                          f'{g // 2} frequencies for curves of {ctx.Mlib - g // 2} points)')
-        else:
-            raise
+    axis_ok_model = False
+    lines = capture_view(lib)                              # an exception here is a library violation
     x_lib = None
     if lines:
         x_lib = lines[0][0]
         k = np.arange(len(x_lib))
         x_want = k * nu_c / (N - 1)
-        x_model = k * (g / N) / (wl * ctx.fno_lib)
-        fl = tuple(f for f, on in ((M_AXIS, ctx.axis_grid), (M_FNO, ctx.fno_abs)) if on)
+        x_model = k * nu_lib / (N - 1)                      # the same axis with the as-built working F-number
+        fl = (M_FNO,) if ctx.fno_abs else ()
         axis_ok_model, _ = same(x_lib, x_model, 1e-9, scale=max(maxabs(x_model), 1e-300))
         r = maxabs((x_lib[1:] - x_want[1:]) / x_want[1:]) if len(k) > 1 else 0.0
-        ok = len(k) > 1 and x_lib[0] == 0.0 and r <= 2.0 / N
+        ok = len(k) > 1 and len(k) == len(lib.mtf[0][0]) and x_lib[0] == 0.0 and r <= 2.0 / N
         judge(rec, 'mtf-frequency-axis', ok, fl, axis_ok_model, resid=r, tol=2.0 / N,
               msg=f'x-data of FFTMTF.view(): spacing {x_lib[1] if len(k) > 1 else None!r} cycles/mm, sample k of the MTF is at '
                   f'k nu_c/(N-1) = k*{nu_c / (N - 1)!r} (N={N}, grid={g}); ratio {x_lib[1] / (nu_c / (N - 1)) if len(k) > 1 else None!r}',
@@ -655,13 +605,14 @@ def check_mtf(ctx, rec, wl, hys):
                   else 'mtf_axis_differs_from_linspace_0_maxfreq')
     for i, hy in enumerate(hys):
         pup = choose_law(ctx, rec, pups[i], lib.psf[i])
-        o, oa = oracle_psfs(ctx, pup)
+        o = oracle_psf(ctx, pup)
         tan, sag = np.asarray(lib.mtf[i][0], dtype=float), np.asarray(lib.mtf[i][1], dtype=float)
-        # exact as-built model of both curves
-        mt, ms = D.mtf_from_psf(oa['psf'], g // 2, g // 2)
+        # as-built model of both curves under `mtf-circular-aliasing`: the cuts from zero frequency through the DFT of the
+        # oracle's grid x grid PSF (= circular autocorrelation of the pupil, period grid); direct sums, no fft
+        mt, ms = D.mtf_from_psf(o['psf'], g // 2, g // 2)
         model_ok = mt is not None and same(tan, mt, 1e-9)[0] and same(sag, ms, 1e-9)[0]
-        fl_start = (M_PAD,) if ctx.dc_shift else ()
-        fl_dl = tuple(f for f, on in ((M_PAD, ctx.dc_shift), (M_ALIAS, ctx.alias)) if on)
+        fl_start = ()
+        fl_dl = (M_ALIAS,) if ctx.alias else ()
         for name, y, axis in (('tangential', tan, 'y'), ('sagittal', sag, 'x')):
             kk = np.arange(len(y))
             dl_exact = D.mtf_linear(pup['A'].astype(complex), len(y), axis)
@@ -674,8 +625,7 @@ def check_mtf(ctx, rec, wl, hys):
             if ctx.perfect and x_lib is not None and len(x_lib) == len(y):
                 want = D.diffraction_limit(x_lib / nu_c)
                 r = maxabs(y - want)
-                fl = tuple(f for f, on in ((M_AXIS, ctx.axis_grid), (M_PAD, ctx.dc_shift), (M_ALIAS, ctx.alias),
-                                           (M_FNO, ctx.fno_abs)) if on)
+                fl = tuple(f for f, on in ((M_ALIAS, ctx.alias), (M_FNO, ctx.fno_abs)) if on)
                 judge(rec, 'mtf-perfect-pupil-formula', r <= 2.0 / N, fl, model_ok and axis_ok_model, resid=r, tol=2.0 / N,
                       msg=f'perfect system, {name} curve against (2/pi)(phi - cos phi sin phi) on the frequencies reported by '
                           f'view() (nu_c = {nu_c:.6g}): max deviation {r:.4f} > 2/N = {2.0 / N:.4f} (N={N}, grid={g}); on the '
